@@ -26,7 +26,7 @@ func NewHierarchyFilter(delimiter []byte, maxLevels int, splitInput bool) *Hiera
 }
 
 func (s *HierarchyFilter) Filter(input analysis.TokenStream) analysis.TokenStream {
-	rv := make(analysis.TokenStream, 0, s.maxLevels)
+	rv := make(analysis.TokenStream, 0)
 
 	var soFar [][]byte
 	for _, token := range input {
